@@ -15,6 +15,16 @@ R4 total = sum of entries: total_energy accumulates exactly the four values
    stored under "energy"; extract_energy_sum / extract_energy_profile sum
    exactly energy[key] for the keys of the class entry or "default".
 R5 every OP[...] cost is clamped with max(., 0).
+R6 memory placement: memory_read_energy / memory_write_energy are partially
+   evaluated for every (model-io flag, mode in dram/sram/fixed, rd_wr_on_io)
+   with symbolic tensor sizes and opaque cost functions.  Documented rule
+   (qtools example, forgiving_energy): rd_wr_on_io decides whether model
+   inputs/outputs live in dram (sram acting as a cache) or are "already in
+   SRAM"; so an io tensor costs what a non-io tensor costs in mode dram
+   (rd_wr_on_io) or sram (otherwise), whatever mode the inner activations
+   use; "fixed" costs nothing; dram costs contain the dram transfer and, with
+   rd_wr_on_io, the sram side; the read and the write function agree
+   (siblings) once rd/wr are swapped.
 """
 import ast
 from fractions import Fraction as F
@@ -521,6 +531,90 @@ def rule_totals(rep, repo):
     raise AnalysisError("instance-count OP table has %d cost lambdas" % nl)
 
 
+def rule_placement(rep, repo):
+  qe = repo.module(QE)
+  fw = Fwd()
+
+  def op(name):
+    return lambda pe, a, k: Tensor(("app", name, (), (pe.as_term(a[0]),)),
+                                   ())
+  optable = {
+      "sram": {"rd": op("sram_rd"), "wr": op("sram_wr"),
+               "mul_factor": S("sram_mf")},
+      "dram": {"rd": op("dram_rd"), "wr": op("dram_wr"),
+               "mul_factor": S("dram_mf")}}
+  table = {}
+  for fname in ("memory_read_energy", "memory_write_energy"):
+    fn = qe.functions.get(fname)
+    if fn is None:
+      raise AnalysisError("anchor-missing %s in qenergy" % fname)
+    for flag in (True, False):
+      for mode in ("dram", "sram", "fixed"):
+        for rd in (True, False):
+          pe = PE(repo, module_overrides={QE: {"OP": optable}})
+          pe.opaque_ext = True
+          try:
+            r = pe.call(pe.lookup_global(fname, qe),
+                        [flag, (None, S("n"), S("c")), mode, S("minsram"),
+                         rd, S("bits")], {})
+            table[fname, flag, mode, rd] = fw(r.term) if isinstance(
+                r, Tensor) else NF.const(F(r))
+          except PyRaise as e:
+            table[fname, flag, mode, rd] = "raises %s" % e.exc_name
+
+  def apps(nf):
+    if isinstance(nf, str):
+      return set()
+    return {a[1] for a in nf.atoms() if a[0] == "app" and
+            a[1].startswith(("sram_", "dram_"))}
+
+  for fname, other, io, dev in (
+      ("memory_read_energy", "memory_write_energy", "input", "rd"),
+      ("memory_write_energy", "memory_read_energy", "output", "wr")):
+    fn = qe.functions[fname]
+    unit = "%s::%s" % (qe.relpath, fname)
+    rep.unit(unit)
+    for mode in ("dram", "sram", "fixed"):
+      for rd in (True, False):
+        cfg = "mode=%s,rd_wr_on_io=%s" % (mode, rd)
+        got = table[fname, True, mode, rd]
+        eff = "dram" if rd else "sram"
+        want = table[fname, False, eff, rd]
+        rep.check(got == want, "R6", unit, "io-tensor-placement",
+                  "%s: a model %s tensor costs %s; with rd_wr_on_io=%s it "
+                  "lives in %s and should cost %s" % (
+                      cfg, io, got if isinstance(got, str) else show(got),
+                      rd, eff,
+                      want if isinstance(want, str) else show(want)),
+                  loc=qe.loc(fn), instance=cfg)
+        inner = table[fname, False, mode, rd]
+        used = apps(inner)
+        if mode == "fixed":
+          ok = not isinstance(inner, str) and inner == NF.const(F(0))
+          exp = "0"
+        elif mode == "sram":
+          exp = {"sram_" + dev}
+          ok = used == exp
+        else:
+          exp = {"dram_" + dev} | (
+              {"sram_" + ("wr" if dev == "rd" else "rd")} if rd else set())
+          ok = used == exp
+        rep.check(ok, "R6", unit, "placement-cost-terms",
+                  "%s: inner tensor cost uses %s, documented transfers are "
+                  "%s" % (cfg, sorted(used) if used else show(inner)
+                          if not isinstance(inner, str) else inner, exp),
+                  loc=qe.loc(fn), instance=cfg)
+        # siblings: swapping rd<->wr in the cost atoms maps one function's
+        # table onto the other's
+        mine = sorted(x.replace("_rd", "_X").replace("_wr", "_rd")
+                      .replace("_X", "_wr") for x in used)
+        theirs = sorted(apps(table[other, False, mode, rd]))
+        rep.check(mine == theirs, "R6", unit, "read/write-siblings-disagree",
+                  "%s: %s uses %s but %s uses %s" % (
+                      cfg, fname, sorted(used), other, theirs),
+                  loc=qe.loc(fn), instance=cfg)
+
+
 def run(rep, repo, tier):
   rep.trusted.append("Keras compute_output_shape (output shapes are symbols)")
   rep.assumptions.append("the energy constants themselves and the rounding "
@@ -528,6 +622,8 @@ def run(rep, repo, tier):
   rule_counts(rep, repo)
   rule_keys(rep, repo)
   rule_totals(rep, repo)
+  rule_placement(rep, repo)
+  rep.require_instances("R6", 36)
   rep.require_instances("R1", 20)
   rep.require_instances("R2", 10)
   rep.require_instances("R3", 8)
